@@ -184,3 +184,67 @@ func VP_C17_AgentRefusesBadPolicy() {
 	}
 	vpCover("end")
 }
+
+// VP_C17_VerdictIsPerUserAndPassword: the verdict of a policy object depends only on the
+// password and user name it is asked about - not on what it was asked before (a fresh policy
+// object built from the same condition is the reference). zxcvbn itself is an uninterpreted
+// scoring function of (password, user inputs): the assertion is model-level.
+func VP_C17_VerdictIsPerUserAndPassword() {
+	cond := []string{"score >= 3", "entropy >= 40", "time >= 1000"}[vpChoose("condition", 3)]
+	p, err := NewPasswordPolicy("zxcvbn", cond)
+	if err != nil {
+		panic("setup")
+	}
+	pws := []string{"zaphod.beeblebrox-42", "a"}
+	users := []string{"bob", "zaphod.beeblebrox-42"}
+	pw1, u1 := pws[vpChoose("password1", 2)], users[vpChoose("user1", 2)]
+	pw2, u2 := pws[vpChoose("password2", 2)], users[vpChoose("user2", 2)]
+	p.Check(pw1, u1)
+	got, gerr := p.Check(pw2, u2)
+	ref, rerr := NewPasswordPolicy("zxcvbn", cond)
+	if rerr != nil {
+		panic("setup")
+	}
+	want, werr := ref.Check(pw2, u2)
+	vpAssert("model: verdict-depends-only-on-this-password-and-user", got == want && (gerr != nil) == (werr != nil))
+	vpCover("end")
+}
+
+// VP_C17_CliWritePaths: init / add / update from the command line with the policy given by the
+// global flags: the command succeeds iff a fresh policy object approves the password for that
+// user; a refusal changes nothing; an unparsable condition stops the command.
+func VP_C17_CliWritePaths() {
+	base, cfg := vpAgentDir(1)
+	op := vpChoose("op", 3)
+	if op != 0 {
+		vpSeedUser(cfg, "root", "rootpw", true)
+	}
+	cond := []string{"score >= 3", "score > 3"}[vpChoose("condition", 2)]
+	pw := []string{"a", "Tr0ub4dor&3-correct-horse-battery"}[vpChoose("password", 2)]
+	g := vpGlobals(cfg, false)
+	g["policy-type"], g["policy-condition"] = "zxcvbn", cond
+	before := vpFsSnapshot(base)
+	var err error
+	user := "root"
+	switch op {
+	case 0:
+		err = cmdInit(vpCliContext(g, map[string]string{}, []string{"root", pw}))
+	case 1:
+		user = "u"
+		err = cmdAdd(vpCliContext(g, map[string]string{}, []string{"u", pw}))
+	case 2:
+		err = cmdUpdate(vpCliContext(g, map[string]string{}, []string{"root", pw}))
+	}
+	code, isExit := vpExit(err)
+	vpAssert("exits-with-an-exit-error", isExit)
+	changed := !vpFsSame(before, vpFsSnapshot(base))
+	ref, rerr := NewPasswordPolicy("zxcvbn", cond)
+	if rerr != nil {
+		vpAssert("unparsable-policy-stops-the-command", code != 0 && !changed)
+	} else {
+		want, _ := ref.Check(pw, user)
+		vpAssert("stored-only-if-the-policy-approves", vpImp(code == 0 || changed, want))
+		vpAssert("approved-password-is-not-refused", vpImp(want, code == 0 && changed))
+	}
+	vpCover("end")
+}
